@@ -1646,7 +1646,13 @@ class FourierTransformInverse(FourierTransformBase):
         # Post-processing in IFT = pre-processing in FT. In-place for
         # C2C and HC2R. For C2R, this is out-of-place and discards the
         # imaginary part.
-        self._postprocess(fft_arr, out=out)
+        if self.range.field == RealNumbers() and not self.halfcomplex:
+            # Complex phase factors: post-process in the complex array,
+            # then keep the real part
+            self._postprocess(fft_arr, out=fft_arr)
+            out[:] = fft_arr.real
+        else:
+            self._postprocess(fft_arr, out=out)
         return out
 
     @property
